@@ -119,7 +119,7 @@ func genName(rng *rand.Rand, destBase string, wantHostile bool) nameSpec {
 	}
 	ups := strings.Repeat("../", 1+rng.IntN(12))
 	var n, cls string
-	switch rng.IntN(22) {
+	switch rng.IntN(24) {
 	case 0:
 		n, cls = "../"+base, "parent-first"
 	case 1:
@@ -170,6 +170,13 @@ func genName(rng *rand.Rand, destBase string, wantHostile bool) nameSpec {
 		esc := iso2022Escapes[rng.IntN(len(iso2022Escapes))]
 		pad := strings.Repeat(esc, 4)
 		n, cls = "d/."+esc+"."+esc+"/."+esc+"./"+pad+base+"\xfe", "iso2022-smuggled-parent-deep"
+	case 22:
+		// a relative name which the transcoder turns into an absolute path of the sandbox (the escape sequences in front vanish)
+		n, cls = strings.Repeat("\x1b(B", 5)+"@SB@/victim-of-transcoding/evil\xff.txt", "iso2022-prefix-then-absolute"
+	case 23:
+		// the directory part alone reads as ISO-2022-JP (escape sequences vanish: a parent reference appears), the whole name as Shift_JIS
+		const shiftJIS = "\x82\xa0\x82\xa2\x82\xa4\x82\xa9\x82\xaa\x82\xab\x82\xad\x82\xaf\x82\xb1\x82\xb3\x82\xb5\x82\xb7"
+		n, cls = strings.Repeat("\x1b(B", 5)+"../pwn\x82\xa0/"+strings.Repeat("\x1b", 5)+shiftJIS+".txt", "iso2022-directory-shiftjis-name"
 	default:
 		n, cls = strings.Repeat("../", 2)+"canary-c02/"+base, "parent-to-canary"
 	}
@@ -291,11 +298,7 @@ func under(p, root string) bool {
 const canaryRoot = "/var/tmp/verif-scratch"
 
 func runCase(r *vrun.Run, c caseSpec, scratch string) {
-	archive, err := zipgen.Build(c.Entries)
-	if err != nil {
-		r.Inconclusive("archive/zip writer refused the generated names")
-		return
-	}
+	var err error
 	canon := fmt.Sprintf("%s|%s|%s|%v|%d|", c.Backend, c.DestForm, c.Limits, c.Prepop, c.Nested)
 	hostile := false
 	for _, n := range c.Names {
@@ -333,6 +336,16 @@ func runCase(r *vrun.Run, c caseSpec, scratch string) {
 	write(filepath.Join(work, "sibling.txt"), []byte("sibling"))
 	write(filepath.Join(work, "outx", "keep.txt"), []byte("sibling-prefix directory"))
 	write(filepath.Join(work, "out-evil-not"), []byte("x"))
+	// names may refer to the sandbox itself (an absolute path next to the destination)
+	entries := append([]zipgen.Entry(nil), c.Entries...)
+	for i := range entries {
+		entries[i].Name = strings.ReplaceAll(entries[i].Name, "@SB@", sb)
+	}
+	archive, err := zipgen.Build(entries)
+	if err != nil {
+		r.Inconclusive("archive/zip writer refused the generated names")
+		return
+	}
 	zipPath = filepath.Join(sb, "in", "archive.zip")
 	write(zipPath, archive)
 	switch c.DestForm {
